@@ -57,13 +57,25 @@ fn show_meta(f: &zip::read::ZipFile) -> String {
     )
 }
 
+thread_local! { static READ_API: std::cell::Cell<u32> = std::cell::Cell::new(0); }
+
+/// Read to end-of-file through one of several consumer APIs (chosen round-robin per case, reset by
+/// `reset_read_api` at the start of every op so that a line replays identically).
 fn read_all(f: &mut impl Read) -> String {
+    let which = READ_API.with(|c| { let v = c.get(); c.set(v + 1); v % 4 });
     let mut buf = vec![];
-    match f.read_to_end(&mut buf) {
-        Ok(_) => format!("ok:{}:{}", crc32fast::hash(&buf), buf.len()),
+    let r: std::io::Result<()> = match which {
+        0 => f.read_to_end(&mut buf).map(|_| ()),
+        1 => { let mut b = [0u8; 7]; loop { match f.read(&mut b) { Ok(0) => break Ok(()), Ok(n) => buf.extend_from_slice(&b[..n]), Err(e) => break Err(e) } } }
+        2 => std::io::copy(f, &mut buf).map(|_| ()),
+        _ => { let mut b = vec![0u8; 65536]; loop { match f.read(&mut b) { Ok(0) => break Ok(()), Ok(n) => buf.extend_from_slice(&b[..n]), Err(e) => break Err(e) } } }
+    };
+    match r {
+        Ok(()) => format!("ok:{}:{}", crc32fast::hash(&buf), buf.len()),
         Err(e) => cls_io(&e),
     }
 }
+pub fn reset_read_api(seed: u32) { READ_API.with(|c| c.set(seed)); }
 
 /// Build the codec table the model needs: every distinct (method, raw bytes) the implementation's
 /// raw view exposes, decoded by the codec library directly.
@@ -142,6 +154,7 @@ pub fn codec_table(bytes: &[u8]) -> String {
 }
 
 pub fn run_seek(bytes: Vec<u8>, pw: Option<Vec<u8>>) -> String {
+    reset_read_api(bytes.len() as u32);
     let r = catch(move || {
         let mut a = match zip::ZipArchive::new(Cursor::new(bytes)) {
             Ok(a) => a,
@@ -211,6 +224,7 @@ impl zip::unstable::stream::ZipStreamVisitor for V {
 }
 
 pub fn run_stream(bytes: Vec<u8>) -> String {
+    reset_read_api(bytes.len() as u32 + 1);
     let r = catch(move || {
         let mut v = V { out: String::new(), files: 0, metas: 0 };
         match zip::unstable::stream::ZipStreamReader::new(Cursor::new(bytes)).visit(&mut v) {
@@ -219,6 +233,49 @@ pub fn run_stream(bytes: Vec<u8>) -> String {
         }
     });
     r.unwrap_or_else(|m| format!("visit=panic:{}", m.replace(' ', "_")))
+}
+
+/// A reader that hands out at most `chunk` bytes per call (0 = no limit).
+pub struct ChunkReader<'a> { pub inner: Cursor<&'a [u8]>, pub chunk: usize }
+impl<'a> Read for ChunkReader<'a> {
+    fn read(&mut self, buf: &mut [u8]) -> std::io::Result<usize> {
+        let n = if self.chunk == 0 { buf.len() } else { buf.len().min(self.chunk) };
+        self.inner.read(&mut buf[..n])
+    }
+}
+
+/// Streaming reader with a per-entry consumption pattern: read `k` bytes of each entry, then drop it.
+pub fn run_streamc(bytes: Vec<u8>, pattern: Vec<usize>, chunk: usize) -> String {
+    let r = catch(move || {
+        let mut rd = ChunkReader { inner: Cursor::new(&bytes[..]), chunk };
+        let mut out = String::new();
+        let mut i = 0usize;
+        loop {
+            let k = if pattern.is_empty() { 0 } else { pattern[i % pattern.len()] };
+            match zip::read::read_zipfile_from_stream(&mut rd) {
+                Err(e) => return format!("end={}", cls_z(&e)),
+                Ok(None) => return format!("end=ok files={i}{out}"),
+                Ok(Some(mut f)) => {
+                    let mut got: Vec<u8> = vec![];
+                    let mut err = None;
+                    while got.len() < k {
+                        let want = (k - got.len()).min(65536);
+                        let mut b = vec![0u8; want];
+                        match f.read(&mut b) {
+                            Ok(0) => break,
+                            Ok(n) => got.extend_from_slice(&b[..n]),
+                            Err(e) => { err = Some(cls_io(&e)); break; }
+                        }
+                    }
+                    let res = err.unwrap_or_else(|| format!("ok:{}:{}", crc32fast::hash(&got), got.len()));
+                    out += &format!(" | {} m={} got={}", hex(f.name().as_bytes()), method_u16(f.compression()), res);
+                    i += 1;
+                    if i > 4096 { return "end=runaway".into(); }
+                }
+            }
+        }
+    });
+    r.unwrap_or_else(|m| format!("end=panic:{}", m.replace(' ', "_")))
 }
 
 // ------------------------------------------------------------------------------------------
@@ -358,7 +415,7 @@ fn lie(r: &mut Rng, l: &mut Layout) {
     let edge = [0u64, 1, 0xFFFE, 0xFFFF, 0x10000, 0xFFFFFFFE, 0xFFFFFFFF, 0x100000000, u64::MAX - 1, u64::MAX, 20, 46];
     let n = l.entries.len();
     for _ in 0..r.range(1, 3) {
-        match r.below(16) {
+        match r.below(17) {
             0 => l.lie_count = Some(*r.pick(&edge)),
             1 => l.lie_cd_size = Some(*r.pick(&edge)),
             2 => l.lie_cd_offset = Some(*r.pick(&edge)),
@@ -387,6 +444,7 @@ fn lie(r: &mut Rng, l: &mut Layout) {
                         if r.chance(1, 2) { e.method = 99; }
                     }
                     14 => { e.flags |= 1; }
+                    15 => { match r.below(3) { 0 => e.crc = 0, 1 => e.crc ^= 1 << r.below(32), _ => { if !e.data.is_empty() { let p = r.below(e.data.len() as u64) as usize; e.data[p] ^= 1 << r.below(8); } } } }
                     _ => { e.central_extra = { let n = r.below(9) as usize; r.bytes(n) }; e.local_extra = { let n = r.below(9) as usize; r.bytes(n) }; }
                 }
             }
@@ -428,6 +486,21 @@ impl Stream for ReadStream {
             let mut r = super::rng_for(seed, "read.w", idx);
             let (b, e) = writer_archive(&mut r);
             push(&mut g, "writer", &b, Some(e), true);
+        }
+        // (b2) streaming reader under consumption patterns and short-read underlying streams (C10, C09)
+        for _ in 0..250 * scale {
+            idx += 1;
+            let mut r = super::rng_for(seed, "read.sc", idx);
+            let b = if r.chance(2, 3) { writer_archive(&mut r).0 } else {
+                let (mut l, _) = rand_layout(&mut r);
+                for e in l.entries.iter_mut() { e.descriptor = Desc::None; e.flags &= !1; e.gap_before.clear(); }
+                l.prefix.clear();
+                mkzip::build(&l).bytes
+            };
+            let codec = codec_table(&b);
+            let pat = match r.below(7) { 0 => "0".to_string(), 1 => "1".into(), 2 => "5,0,1000000".into(), 3 => "1000000".into(), 4 => format!("{}", r.below(2000)), 5 => "0,1000000".into(), _ => format!("{},{},{}", r.below(40), r.below(3), r.below(100000)) };
+            let inner = *r.pick(&[0u64, 1, 2, 7, 64, 4096, 3]);
+            g.push("streamc", format!("read.streamc bytes={} codec={codec} consume={pat} inner={inner}", hex(&b)));
         }
         // (c) liars
         for _ in 0..500 * scale {
@@ -479,12 +552,16 @@ impl Stream for ReadStream {
                 run_seek(bytes, pw)
             }
             "read.stream" => run_stream(bytes),
+            "read.streamc" => {
+                let pat: Vec<usize> = a.get("consume").map(|s| if s == "-" { vec![] } else { s.split(',').filter_map(|x| x.parse().ok()).collect() }).unwrap_or_default();
+                run_streamc(bytes, pat, get_u64(&a, "inner").unwrap_or(0) as usize)
+            }
             _ => "bad-op".into(),
         }
     }
 
     fn nontrivial(&self, _line: &str, resp: &str) -> bool {
-        resp.starts_with("open=ok") || resp.starts_with("visit=ok")
+        resp.starts_with("open=ok") || resp.starts_with("visit=ok") || resp.starts_with("end=ok files=")
     }
 
     fn oracle(&self, line: &str, resp: &str) -> Vec<OracleFailure> {
@@ -494,6 +571,19 @@ impl Stream for ReadStream {
             return f;
         }
         let (op, a) = parse_line(line);
+        if op == "read.streamc" {
+            // however much of each entry is consumed and however the underlying reader chunks its reads, the
+            // stream yields the same entries in the same order and ends the same way as when everything is read
+            let bytes = get_hex(&a, "bytes").unwrap_or_default();
+            let full = run_streamc(bytes, vec![usize::MAX / 2], 0);
+            let names = |s: &str| -> Vec<String> { s.split(" | ").skip(1).map(|e| e.split(" got=").next().unwrap_or("").to_string()).collect() };
+            let end = |s: &str| s.split(" | ").next().unwrap_or("").to_string();
+            // a consumer that stops early does not see a checksum error the full read reports; entries and the end agree otherwise
+            if full.starts_with("end=ok") && (end(&full) != end(resp) || names(&full) != names(resp)) {
+                f.push(OracleFailure { what: format!("streaming: entries differ from the read-everything run: `{}` vs `{}`", &resp[..resp.len().min(160)], &full[..full.len().min(160)]) });
+            }
+            return f;
+        }
         if op != "read.seek" { return f; }
         let exp = match a.get("expect") { Some(e) => e.clone(), None => return f };
         let parts: Vec<&str> = exp.split(';').collect();
